@@ -3084,10 +3084,14 @@ impl Actor {
             Ok((burn_amount, reward_amount))
         })?;
 
+        let mut burn_amount = burn_amount;
         if let Err(e) =
-            extract_send_result(rt.send_simple(&reporter, METHOD_SEND, None, reward_amount))
+            extract_send_result(rt.send_simple(&reporter, METHOD_SEND, None, reward_amount.clone()))
         {
             error!("failed to send reward: {}", e);
+            // The reward is part of the penalty: if it cannot be paid out it is burnt, as in
+            // dispute_windowed_post, rather than left with the penalised miner.
+            burn_amount += reward_amount;
         }
 
         burn_funds(rt, burn_amount)?;
